@@ -86,6 +86,16 @@ def build_dir(rng, root: Path):
                 owners["URL"].append((f"url{n}", "https://example.com/p%s"))
             lines.append(" ".join(words))
         pages[rel] = lines
+    # coincidences: the value of an ID / RID also appears under ANOTHER property key on another page
+    rels = sorted(pages)
+    for key in ("ID", "RID", "URL"):
+        for val, owner_rel in list(owners[key]):
+            if rng.random() < 0.5:
+                other = rng.choice([r for r in rels if r != owner_rel])
+                n += 1
+                z = pg.rand_zid(rng, dt.date(2024, 6, 1) + dt.timedelta(days=n))
+                owners["zid"].append((z, other))
+                pages[other].append(f"- {z} decoy{n} {rng.choice(['author', 'ref', 'see', 'IDX'])}::{val}")
     for rel, lines in pages.items():
         f = root / rel
         f.parent.mkdir(parents=True, exist_ok=True)
